@@ -247,6 +247,9 @@ def run(res: C.Result):
         c["script"] = script
         cases.append(c)
         plans.append((entries, cur, gam, rounds))
+    for i, c in enumerate(cases):
+        if random.Random(res.seed ^ 0x13C000 ^ i).random() < 0.4:
+            c["late_T"] = True       # built at another temperature, re-tuned through the public attribute before use (annealing)
     outs = C.run_impl_parallel("c13.py", [{"cases": cases[i::16]} for i in range(16)])
     results = [None] * ncases
     for j, o in enumerate(outs):
